@@ -838,6 +838,8 @@ class TaskPool(BaseTaskPool):
         """
         if kwargs is None:
             kwargs = {}
+        # A one-shot iterator would be used up by the first of the `num` calls.
+        args = tuple(args)
         for i in range(num):
             try:
                 coroutine = func(*args, **kwargs)
@@ -1454,7 +1456,8 @@ class SimpleTaskPool(BaseTaskPool):
         if not iscoroutinefunction(func):
             raise NotCoroutineFunction(func)
         self._func: AnyCoroutineFunc = func
-        self._args: ArgsT = args
+        # A one-shot iterator would be used up by the first call.
+        self._args: ArgsT = tuple(args)
         self._kwargs: KwArgsT = kwargs if kwargs is not None else {}
         self._end_callback: EndCB | None = end_callback
         self._cancel_callback: CancelCB | None = cancel_callback
